@@ -358,7 +358,7 @@ def _aged(ctx: Ctx, item):
 
 def run(ctx: Ctx):
     pmap(ctx, _aged, [(i, 16, 2 if ctx.quick else 40) for i in range(16)])
-    n = 40 if ctx.quick else 4000
+    n = 40 if ctx.quick else 1500
     pmap(ctx, _work, [(n,)] * 16)
     if not ctx.quick:
         from ..fuzz import run_fuzz
